@@ -133,6 +133,7 @@ Ver26(cid) ==
   CASE cid = "v1" -> V(<<D("ver", "Gauge", "Int", <<>>, 1, "set", FALSE), D("n", "Counter", "Int", <<>>, 2, "inc", FALSE)>>, 1)
     [] cid = "v2" -> V(<<D("ver", "Gauge", "Int", <<>>, 1, "set", FALSE), D("n", "Counter", "Int", <<>>, 2, "inc", FALSE)>>, 2)
     [] cid = "bad" -> Broken
+    [] cid = "unread" -> Broken        \* a directory entry that cannot be opened (a dangling symlink): never compiled
 Cids26 == {"v1", "v2", "bad"}
 
 \* C06: five sources sharing the names n and m; "+" = the same source with a trailing comment
@@ -409,6 +410,9 @@ EnvActions ==
     [] Family = "C26" ->
          {Act("write", n, "", c, "") : n \in {x \in NameSet : ~DirName(x) /\ Eligible(x)}, c \in Cids26}
          \cup {Act("write", n, "", "v1", "") : n \in {x \in NameSet : ~DirName(x) /\ ~Eligible(x) /\ dir[x] = "absent"}}
+         \* a NEW entry with a program name that cannot be read (os.OpenFile fails): counted as a load error at
+         \* every scan, never running, and the scan goes on to the entries after it
+         \cup {Act("write", n, "", "unread", "") : n \in {x \in NameSet : ~DirName(x) /\ Eligible(x) /\ dir[x] = "absent"}}
          \cup {Act("rm", n, "", "", "") : n \in {x \in NameSet : dir[x] # "absent"}}
          \cup {Act("mkdir", n, "", "", "") : n \in {x \in NameSet : DirName(x) /\ dir[x] = "absent"}}
          \cup {Act("mv", q[1], q[2], "", "") :                                    \* one side is a program name
@@ -512,12 +516,18 @@ LaNext ==
 
 LpFilter ==                    \* hidden file / extension: return nil without reading
   /\ pc = "lp_filter"
-  /\ IF Eligible(ld.name)
-     THEN /\ pc' = "cr_hash" /\ UNCHANGED ld
+  /\ IF Eligible(ld.name) /\ ld.cid = "unread"
+     THEN \* `f, err := os.OpenFile(..); if err != nil { ProgLoadErrors.Add(name, 1); return err }` - LoadAllPrograms
+          \* logs the error and carries on with the next entry (errorsAbort is off)
+          /\ ctr' = [ctr EXCEPT !.lerr[ld.name] = @ + 1]
+          /\ tally' = [tally EXCEPT !.lerr[ld.name] = @ + 1]
+          /\ pc' = "lp_ret" /\ ld' = [ld EXCEPT !.out = "open_error"] /\ UNCHANGED snap
+     ELSE IF Eligible(ld.name)
+     THEN /\ pc' = "cr_hash" /\ UNCHANGED <<ld, ctr, tally>>
           /\ snap' = [had |-> handles[ld.name].cid # "none", h |-> handles[ld.name],
                       view |-> StoreView(store, objs, dat), ctr |-> ctr]
-     ELSE /\ pc' = "lp_ret" /\ ld' = [ld EXCEPT !.out = "skipped"] /\ UNCHANGED snap
-  /\ UNCHANGED <<dir, assign, handles, store, objs, dat, nvm, ctr, la, cur, ev, h, nlines, tally, idealRun, recv, idealRecv, solo, fired>>
+     ELSE /\ pc' = "lp_ret" /\ ld' = [ld EXCEPT !.out = "skipped"] /\ UNCHANGED <<snap, ctr, tally>>
+  /\ UNCHANGED <<dir, assign, handles, store, objs, dat, nvm, la, cur, ev, h, nlines, idealRun, recv, idealRecv, solo, fired>>
 
 CrHash ==                      \* `if ok && bytes.Equal(vh.contentHash, contentHash) { return nil }`
   /\ pc = "cr_hash"
